@@ -25,7 +25,8 @@ ASSUMPTIONS = ['friction factor, velocity and density are the static values the 
                'are evaluated once at the bundle-average temperature is the documented design (constant within a sweep)',
                'step-size independence follows from additivity in dz (proved) and sum(dz) = L (C05)']
 NOT_DECIDED = ['text tables that print the pressure drop (formatting)']
-BOUNDED = []
+BOUNDED = ['runtime.gravity_head[*]: generated assemblies (pin bundle + single-node + six-node regions, double duct) with '
+           'include_gravity_head_loss on / off: the gravity part of the reported pressure drop is rho g L (constant density)']
 G = 9.80665
 
 
@@ -110,12 +111,14 @@ grid.run_kw = dict(pool_size=10)
 
 
 def unrodded(S, cfg):
-    ur = make_unrodded(S, model=cfg.get('model', 'simple'))
+    # the gravity option enters through the real constructor (as Assembly / make_axialregion pass it on)
+    grav = cfg.get('gravity', True)
+    ur = make_unrodded(S, model=cfg.get('model', 'simple'), gravity=grav)
+    S.holds('dp.gravity_option_reaches_the_region', ur._gravity is grav)
     ff = S.pos('ff', 0.01, 0.05)
     vel = S.pos('vel', 1.0, 8.0)
     ur.coolant_params['ff'] = ff
     ur.coolant_params['vel'] = vel
-    ur._gravity = True
     rho = ur.coolant.density
     dz1 = S.pos('dz1', 0.001, 0.02)
     dz2 = S.pos('dz2', 0.001, 0.02)
@@ -130,9 +133,12 @@ def unrodded(S, cfg):
     before = dict(ur._pressure_drop)
     ur.calculate_pressure_drop(S.pos('z', 0.5, 1.0), dz1)
     S.eq('dp.accumulate.friction', ur._pressure_drop['friction'], before['friction'] + f1)
-    S.eq('dp.accumulate.gravity', ur._pressure_drop['gravity'], before['gravity'] + g1)
+    S.eq('dp.accumulate.gravity', ur._pressure_drop['gravity'], before['gravity'] + (g1 if grav else 0))
     S.eq('dp.sum_of_parts', ur.pressure_drop, ur._pressure_drop['friction'] + ur._pressure_drop['gravity'])
-    S.eq('canary.gravity_missing', ur.pressure_drop, ur._pressure_drop['friction'], canary=True)
+    if grav:
+        S.eq('canary.gravity_missing', ur.pressure_drop, ur._pressure_drop['friction'], canary=True)
+    else:
+        S.eq('canary.friction_missing', ur.pressure_drop, ur._pressure_drop['gravity'], canary=True)
 unrodded.cname = 'SingleNodeHomogeneous.calculate_pressure_drop'
 
 
@@ -176,5 +182,77 @@ def configs(tier):
            (grid, dict(where='first')), (grid, dict(where='second')), (grid, dict(where='on_plane')),
            (grid, dict(where='any')),
            (unrodded, dict(model='simple')), (unrodded, dict(model='6node')),
+           (unrodded, dict(model='simple', gravity=False)), (unrodded, dict(model='6node', gravity=False)),
            (assembly, dict())]
     return out
+
+
+
+# ---------------------------------------------------------------------------------------
+# bounded: the gravity option end to end (input -> Reactor -> Assembly -> region factories -> regions)
+RUNTIME = {
+    'bundle_only': dict(asms={'a1': dict()}),
+    'simple_regions': dict(asms={'a1': dict(unrodded=[('lower', 0.0, 0.3, 'simple'), ('upper', 0.8, 1.0, 'simple')])}),
+    'sixnode_regions': dict(asms={'a1': dict(unrodded=[('lower', 0.0, 0.3, '6node'), ('upper', 0.8, 1.0, '6node')])}),
+    'mixed_regions_double_duct': dict(asms={'a1': dict(n_duct=2, unrodded=[('lower', 0.0, 0.25, '6node'), ('upper', 0.7, 1.0, 'simple')])}),
+    'low_fidelity_6node': dict(asms={'a1': dict(low_fidelity='6node')}),
+}
+
+
+def _gravity_case(args):
+    import os
+    import shutil
+    import sys
+    import tempfile
+    name, on = args
+    sys.path.insert(0, os.environ.get('DASSH_REPO', '/repo'))
+    from pvc import geninput as Gn
+    wd = tempfile.mkdtemp(prefix='c14_')
+    try:
+        p = Gn.write_problem(wd, gap_model='none', setup_extra=f'    include_gravity_head_loss = {on}\n', **RUNTIME[name])
+        inp, r = Gn.build(p, sweep=True)
+        a = r.assemblies[0]
+        grav = sum(float(np.sum(reg._pressure_drop['gravity'])) for reg in a.region)
+        want = 850.0 * 9.80665 * 1.0 if on else 0.0
+        g_const = None
+        try:
+            from dassh import region
+            g_const = getattr(region, '_GRAVITY', None)
+        except Exception:
+            pass
+        ok = abs(grav - want) <= 1e-6 * max(want, 1.0) if g_const is None else abs(grav - (850.0 * g_const if on else 0.0)) <= 1e-6 * max(want, 1.0)
+        per = [float(np.sum(reg._pressure_drop['gravity'])) for reg in a.region]
+        return name, on, ok, f'gravity head {grav!r} Pa (per region {per}), expected {want!r} Pa'
+    except BaseException as e:
+        return name, on, False, f'{type(e).__name__}: {e}'
+    finally:
+        shutil.rmtree(wd, ignore_errors=True)
+
+
+def extra_checks(tier, seed):
+    import multiprocessing as mp
+    import time
+    t0 = time.time()
+    jobs = [(n, on) for n in RUNTIME for on in (True, False)]
+    with mp.get_context('fork').Pool(10) as pool:
+        out = pool.map(_gravity_case, jobs, chunksize=1)
+    secs = time.time() - t0
+    results = []
+    for name, on, ok, d in out:
+        results.append(dict(name=f'runtime.gravity_head[{name},{"on" if on else "off"}]', status='proved' if ok else 'refuted',
+                            backend='bounded:run-time contract', seconds=secs / len(out), detail=d, sample=(name == 'sixnode_regions' and on),
+                            witness=dict(values=dict(case=name, on=on)),
+                            replay=dict(reproduced=not ok, point=dict(values=dict(case=name, on=on)), native=d)))
+    return [dict(name='gravity option end to end (run-time contracts)', results=results,
+                 notes=['BOUNDED: runtime.gravity_head[*] on generated single-assembly problems'])]
+
+
+def replay(doc):
+    w = (doc.get('witness') or {}).get('values') or {}
+    if w.get('case') not in RUNTIME:
+        print('replay: symbolic obligation - re-run ./check C14')
+        return 0
+    name, on, ok, d = _gravity_case((w['case'], bool(w.get('on'))))
+    print('replay:', name, on, d)
+    print('not reproduced' if ok else 'REPRODUCED')
+    return 0 if ok else 1
